@@ -102,6 +102,24 @@ PROPS["C05"] = {
     "thorough": {"scale": 10, "shards": 16, "timeout": 1500, "fuzz": [("FuzzARPAPrefix", 60)]},
 }
 
+PROPS["C06"] = {
+    "pkg": "c06",
+    "technique": "enumeration plus property-based testing against the networks parsed from the functions' own doc comments: IPv4 swept (thorough: all 2^32), IPv6 by per-network boundaries, every single-bit flip and prefix-copying random generation",
+    "level_text": ("The oracle is built at run time from the doc comments of IsLocallyServed / IsSpecialPurpose in the tree under test (go/parser), so code and "
+                   "documentation are compared with each other. IPv4: quick enumerates every /24 block with 9 last octets, thorough all 2^32 addresses "
+                   "(exhaustive for the IPv4 half). IPv6 (2^128, cannot be enumerated): first/last/neighbour addresses of every documented network, every "
+                   "one of the 128 single-bit flips of every generated address, random addresses sharing 8..96 leading bits with a documented base, zoned "
+                   "and 4in6 forms, the zero Addr. Exploration for IPv6."),
+    "level_note": "Trusted: net/netip Prefix.Contains and the doc-comment parser (cross-checked against the pinned commit's lists; fewer than 5 parsed networks makes the run inconclusive).",
+    "rule": ("Non-trivial: the address lies in a documented network, or differs from such an address in exactly one bit (all 32/128 flips of every generated "
+             "address are evaluated), or is the zero Addr; distinct = distinct address text; the IPv4 sweep counts addresses inside a documented network, "
+             "distinct by construction."),
+    "assumptions": ["a zoned address lies in a network iff the same address without zone does; 4in6 addresses are IPv6 addresses (netip semantics)"],
+    "expect_classes": {},
+    "quick": {"scale": 1, "shards": 1, "timeout": 300},
+    "thorough": {"scale": 10, "shards": 16, "timeout": 1500},
+}
+
 ALL_IDS = ["C%02d" % i for i in range(1, 21)]
 NOT_APPLICABLE = [
     {"property_id": pid, "reason": "check not built yet in this revision of the harness (work in progress; see DESIGN.md section 9)"}
